@@ -84,6 +84,19 @@ def Blind {α : Type} : Prog α → Prop
   | peek _ _ => False
   | getOff k => ∀ o, Blind (k o)
 
+/-- position independent: no absolute cursor (`setOff`, `getOff`) and no look at the raw buffer (`peek`) -/
+def Rel {α : Type} : Prog α → Prop
+  | ret _ => True
+  | fail => True
+  | expect _ k => Rel k
+  | unpack _ k => ∀ b, Rel (k b)
+  | skip _ k => Rel k
+  | advance _ k => Rel k
+  | setOff _ _ => False
+  | fileLeft k => ∀ i, Rel (k i)
+  | peek _ _ => False
+  | getOff _ => False
+
 end Prog
 
 /-! ## `BufferReader` -/
